@@ -1332,6 +1332,15 @@ func (e *Exec) evalLoc(x Expr, env *Env) location {
 			e.get(env.st, cell.Heap, cell.HS)
 			return location{kind: "heap", heap: cell.Heap, hs: cell.HS, ref: cell.Ref}
 		}
+		// a package-level variable of the function's own package
+		if env.fr != nil && env.fr.fn != nil && env.fr.fn.Pkg != nil {
+			if g, ok := env.fr.fn.Pkg.Members[x.Name].(*ssa.Global); ok {
+				if a := e.globalAddr(g).Addr; a != nil && a.Kind == "global" {
+					e.get(env.st, a.Heap, a.HS)
+					return location{kind: "heap", heap: a.Heap, hs: a.HS, whole: true}
+				}
+			}
+		}
 	case EIndex:
 		if id, ok := x.X.(EIdent); ok {
 			if g, ok := e.P.Spec.Ghosts[id.Name]; ok {
